@@ -260,6 +260,7 @@ def cwrite_harness(st, nbits, dt, nchans):
             if nbits < 8:
                 pf = getattr(fa, "packed_from", None)
                 out["viol"].append(("packed at the declared depth", z3.BoolVal(pf is None or pf[1] != 8 // nbits)))
+                out["viol"].append(("packed in the bit order the readers unpack this depth with", z3.BoolVal(pf is None or not z3.eq(z3.simplify(pf[2]), z3.IntVal(nbits)))))
                 if pf is not None:
                     out["viol"].append(("packed samples are the data, same order", z3.And(k >= 0, k < ne, pf[0](k) != V(k))))
             else:
